@@ -5,7 +5,7 @@
    lists which instances were proved in a run. *)
 From Coq Require Import Reals List Lra.
 From Coquelicot Require Import Coquelicot.
-From IOptV Require Import Problems.Families Problems.Simple.
+From IOptV Require Import Problems.Families Problems.Simple gen.SourceFacts.
 Import ListNotations.
 Open Scope R_scope.
 
@@ -26,3 +26,8 @@ Print Assumptions C10_hill_derivative.
 Theorem C10_shekel_derivative : forall l x, pos_table l -> is_derive (shekel l) x (dshekel l x).
 Proof. exact shekel_derive. Qed.
 Print Assumptions C10_shekel_derivative.
+
+(* an instance is the function its tables describe whatever else lives in the process: no class-level / module-level mutable state, nothing memoised *)
+Theorem C10_no_shared_state : class_level_mutables = List.nil /\ module_level_mutables = List.nil /\ memoised_functions = List.nil.
+Proof. repeat split; reflexivity. Qed.
+Print Assumptions C10_no_shared_state.
